@@ -5,6 +5,8 @@ two spellings of the same code:
 
 * `if not C: A else: B`  ->  `if C: B else: A`      (only when both branches exist)
 * `x = E; return x`      ->  `return E`              (x a plain name that occurs nowhere else in the function)
+* `if a: if b: X`        ->  `if a and b: X`         (no else on either)
+* `if c: ..return/raise else: R`  ->  `if c: ..return/raise` followed by R
 
 Positions are kept (copy_location), so reports still name the right line.
 """
@@ -16,12 +18,34 @@ import ast
 class _Canon(ast.NodeTransformer):
     def visit_If(self, node: ast.If):
         self.generic_visit(node)
-        while node.orelse and isinstance(node.test, ast.UnaryOp) and isinstance(node.test.op, ast.Not):
+        ends = lambda b: bool(b) and isinstance(b[-1], (ast.Return, ast.Raise))
+        # (an `if not c: ...return` keeps its polarity: its else branch is hoisted instead)
+        while node.orelse and isinstance(node.test, ast.UnaryOp) and isinstance(node.test.op, ast.Not) and not ends(node.body):
             new = ast.If(test=node.test.operand, body=node.orelse, orelse=node.body)
             node = ast.copy_location(new, node)
+        # `if a: if b: X` (no else anywhere) is `if a and b: X`
+        while not node.orelse and len(node.body) == 1 and isinstance(node.body[0], ast.If) and not node.body[0].orelse:
+            inner = node.body[0]
+            lhs = node.test.values if isinstance(node.test, ast.BoolOp) and isinstance(node.test.op, ast.And) else [node.test]
+            rhs = inner.test.values if isinstance(inner.test, ast.BoolOp) and isinstance(inner.test.op, ast.And) else [inner.test]
+            test = ast.copy_location(ast.BoolOp(op=ast.And(), values=list(lhs) + list(rhs)), node.test)
+            node = ast.copy_location(ast.If(test=test, body=inner.body, orelse=[]), node)
         return node
 
+    @staticmethod
+    def _hoist_else(body):
+        """`if c: ...; return/raise  else: REST` is `if c: ...; return/raise` followed by REST"""
+        out = []
+        for st in body:
+            if isinstance(st, ast.If) and st.orelse and st.body and isinstance(st.body[-1], (ast.Return, ast.Raise)):
+                out.append(ast.copy_location(ast.If(test=st.test, body=st.body, orelse=[]), st))
+                out.extend(_Canon._hoist_else(st.orelse))
+            else:
+                out.append(st)
+        return out
+
     def _fix_body(self, fnode, body):
+        body = self._hoist_else(body)
         out = []
         i = 0
         while i < len(body):
@@ -61,31 +85,25 @@ class _Canon(ast.NodeTransformer):
         params = {x.arg for x in fnode.args.posonlyargs + fnode.args.args + fnode.args.kwonlyargs} | {x.arg for x in (fnode.args.vararg, fnode.args.kwarg) if x}
         return name not in params and loads == stores == pairs > 0
 
-    def _visit_func(self, node):
-        self.generic_visit(node)
-        self._cur = node
-        for holder in ast.walk(node):
-            if holder is not node and isinstance(holder, (ast.FunctionDef, ast.AsyncFunctionDef, ast.Lambda, ast.ClassDef)):
+    def _fix_block(self, fnode, stmts):
+        out = self._fix_body(fnode, stmts)
+        for st in out:
+            if isinstance(st, (ast.FunctionDef, ast.AsyncFunctionDef, ast.ClassDef)):
                 continue
             for fld in ("body", "orelse", "finalbody"):
-                v = getattr(holder, fld, None)
-                if isinstance(v, list) and v and isinstance(v[0], ast.stmt) and self._owner(node, holder):
-                    setattr(holder, fld, self._fix_body(node, v))
-        return node
+                v = getattr(st, fld, None)
+                if isinstance(v, list) and v and isinstance(v[0], ast.stmt):
+                    setattr(st, fld, self._fix_block(fnode, v))
+            for h in getattr(st, "handlers", []) or []:
+                h.body = self._fix_block(fnode, h.body)
+            for c in getattr(st, "cases", []) or []:
+                c.body = self._fix_block(fnode, c.body)
+        return out
 
-    @staticmethod
-    def _owner(fnode, holder) -> bool:
-        # the statement list belongs to fnode itself, not to a function nested in it
-        stack = [fnode]
-        while stack:
-            n = stack.pop()
-            if n is holder:
-                return True
-            for c in ast.iter_child_nodes(n):
-                if c is not fnode and isinstance(c, (ast.FunctionDef, ast.AsyncFunctionDef, ast.Lambda, ast.ClassDef)) and c is not holder:
-                    continue
-                stack.append(c)
-        return False
+    def _visit_func(self, node):
+        self.generic_visit(node)
+        node.body = self._fix_block(node, node.body)
+        return node
 
     visit_FunctionDef = _visit_func
     visit_AsyncFunctionDef = _visit_func
